@@ -8,6 +8,7 @@ import (
 	"os"
 	"path/filepath"
 	"runtime/debug"
+	"strconv"
 	"strings"
 	"testing"
 	"time"
@@ -25,6 +26,7 @@ var (
 	flagReplay  = flag.String("replay", "", "replay file")
 	flagReplays = flag.String("replaydir", "/verif/replays", "where replay files go")
 	flagDump    = flag.Bool("dump", false, "print per-run digests (determinism self-test)")
+	flagOnly    = flag.Int("onlyrun", -1, "execute only this run index (debugging)")
 	flagGoldOut = flag.String("goldenout", "", "goldengen: output directory")
 	flagGoldBy  = flag.String("goldenwriter", "", "goldengen: commit of the build linked in")
 	flagGoldN   = flag.Int("goldenn", 36, "goldengen: number of histories")
@@ -136,6 +138,15 @@ func TestWorker(t *testing.T) {
 			t.Fatal(err)
 		}
 		r := safeExecute(eng, p)
+		if _, real := eng.(raceEngine); real {
+			tries := 20
+			if n, err := strconv.Atoi(os.Getenv("VERIF_REPLAY_TRIES")); err == nil {
+				tries = n
+			}
+			for try := 0; try < tries && r.V == nil; try++ {
+				r = safeExecute(eng, p)
+			}
+		}
 		if r.V != nil {
 			fmt.Printf("REPLAY-VIOLATION property=%s class=%s detail=%s\n", p.Property, r.V.Class, r.V.Detail)
 			if p.Class != "" && r.V.Class != p.Class {
@@ -156,6 +167,9 @@ func TestWorker(t *testing.T) {
 		if time.Since(start) > *flagBudget {
 			wr.Complete = false
 			break
+		}
+		if *flagOnly >= 0 && run != *flagOnly {
+			continue
 		}
 		rs := runSeed(*flagSeed, run)
 		rng := rand.New(rand.NewSource(rs))
@@ -202,9 +216,32 @@ func TestWorker(t *testing.T) {
 			}
 			classes[res.V.Class] = true
 			plan.Class, plan.Detail = res.V.Class, res.V.Detail
+			rep := VioReport{Class: res.V.Class, Detail: res.V.Detail, Seed: rs, Run: run}
+			if _, real := eng.(raceEngine); real {
+				// executions on real threads are not replayable schedule-exactly: no minimisation; the seeded
+				// workload is re-run until the same report shows again
+				rep.Reproduced = strings.HasPrefix(res.V.Class, "data-race") // a race report carries both stacks: its own witness
+				for try := 0; try < 10 && !rep.Reproduced; try++ {
+					if r := safeExecute(eng, plan); r.V != nil && r.V.Class == res.V.Class {
+						rep.Reproduced = true
+					}
+				}
+				rep.Ops = plan.NumOps()
+				os.MkdirAll(*flagReplays, 0755)
+				path := filepath.Join(*flagReplays, fmt.Sprintf("%s-%d-%d.json", *flagProp, *flagSeed, run))
+				if err := plan.Save(path); err != nil {
+					t.Fatal(err)
+				}
+				rep.Replay = path
+				wr.Violations = append(wr.Violations, rep)
+				if len(wr.Violations) >= 6 {
+					wr.Complete = false
+					break
+				}
+				continue
+			}
 			min := Minimise(eng, plan, res.V.Class, 20*time.Second)
 			r2 := safeExecute(eng, min)
-			rep := VioReport{Class: res.V.Class, Detail: res.V.Detail, Seed: rs, Run: run}
 			if r2.V != nil && r2.V.Class == res.V.Class {
 				min.Class, min.Detail = r2.V.Class, r2.V.Detail
 				rep.Detail = r2.V.Detail
